@@ -4,3 +4,10 @@ mod multinomial;
 pub mod vanilla;
 
 pub use data::RegretParams;
+
+/// verification access to the private categorical sampler
+#[cfg(cfr_verif)]
+pub(crate) fn categorical_sample(probs: &[f64], rng: &mut impl rand::Rng) -> usize {
+    use rand_distr::Distribution;
+    multinomial::Multinomial::new(probs).sample(rng)
+}
